@@ -1113,6 +1113,7 @@ kv_observe(ldb_t *db, const kack_t *acks, int nacks, kobs_t *o) {
       } else {
         o->m.vid[k] = vid;
         o->m.sz[k] = (unsigned char)sz;
+        o->m.spell[k] = (unsigned char)k;   /* observation drivers use comparators without equivalent spellings */
       }
       ldb_free(val.data);
     } else if (rc != LDB_NOTFOUND) {
